@@ -6,8 +6,8 @@ CONSTANTS
     Names = {"n1", "n2"}
     PropVals = {1, 2}
     NewComps = {"rec1", "dflt", "dfltl", "dfltp", "dfltL"}
-    WithComps = {"rec2", "dflt", "dfltl", "dfltL"}
-    CwComps = {"rec3", "dflt", "dfltp", "dfltL", "ok", "okD", "err", "errD", "errM", "errMD"}
+    WithComps = {"rec2", "dfltl", "dfltL", "recRef", "fromE", "empty"}
+    CwComps = {"rec3", "dflt", "dfltp", "dfltL", "ok", "okD", "err", "errD", "errM", "errMD", "recRef", "recSS", "fromE", "empty"}
     Scripts <- MC_ScriptsThorough
     Forms = {"none", "plain", "setup", "result", "result_o", "result_e", "resultM", "resultM_m", "guard", "newspan"}
     Frames = {"in", "out"}
